@@ -31,7 +31,7 @@ abbrev ConfigTag := Nat
 
 /-- The model flag of finding `C15/reload-mtime-consumed-by-failed-read`: `false` = `/repo` as it
 is (`self.modified` is assigned before `read_config`). Flip to `true` when the fix is applied. -/
-def codeFixed : Bool := false
+def codeFixed : Bool := true
 
 /-- what the file system shows at the path at the moment of one poll -/
 inductive FileView (Text : Type) where
